@@ -182,12 +182,12 @@ def cluster : List Char → List Ev × Option Bool
   | [] => ([], none)
   | ch :: cs =>
     match shortOpts.lookup ch with
-    | none => ([.bad], none)
-    | some .usage => ([.act .usage ch], none)
-    | some .version => ([.act .version ch], none)
-    | some .argN => if cs.isEmpty then ([], some true) else ([.setN cs], none)
-    | some .argM => if cs.isEmpty then ([], some false) else ([.setM cs], none)
-    | some a => let r := cluster cs; (.act a ch :: r.1, r.2)
+    | none => ([.bad], none)                       -- `default: fail(...)`
+    | some a =>
+      if a = .usage ∨ a = .version then ([.act a ch], none)     -- `cont = 0`
+      else if a = .argN then (if cs.isEmpty then ([], some true) else ([.setN cs], none))
+      else if a = .argM then (if cs.isEmpty then ([], some false) else ([.setM cs], none))
+      else let r := cluster cs; (.act a ch :: r.1, r.2)
 
 /-- one long option (text after `--`, non-empty) -/
 def longEv (name : Tok) : Ev :=
@@ -195,27 +195,39 @@ def longEv (name : Tok) : Ev :=
   | none => .bad
   | some a => .act a '0'
 
+/-- How the arguments loop looks at one list element. -/
+inductive ArgKind where
+  | operand                       -- `'-' != *argscan`: kept
+  | stop                          -- exactly `--`
+  | long (name : Tok)             -- `--name`, name non-empty
+  | short (cs : List Char)        -- `-cs` (cs may be empty: the argument `-`)
+  deriving DecidableEq, Repr
+
+def argKind : Tok → ArgKind
+  | [] => .operand
+  | c0 :: t =>
+    if c0 ≠ '-' then .operand
+    else match t with
+      | [] => .short []
+      | c1 :: t' =>
+        if c1 = '-' then (if t'.isEmpty then .stop else .long t')
+        else .short (c1 :: t')
+
 /-- The arguments loop of `opts_setup`. -/
 def flatten : List Tok → List Ev
   | [] => []
   | a :: rest =>
-    match a with
-    | [] => .operand a :: flatten rest
-    | c0 :: t =>
-      if c0 ≠ '-' then .operand a :: flatten rest
-      else match t with
-        | [] => flatten rest                       -- "-": an empty cluster
-        | c1 :: t' =>
-          if c1 = '-' then
-            if t'.isEmpty then rest.map .operand    -- "--": AS_STOP
-            else longEv t' :: flatten rest
-          else
-            match cluster (c1 :: t') with
-            | (es, none) => es ++ flatten rest
-            | (es, some isN) =>
-              match rest with
-              | [] => es ++ [.bad]
-              | v :: rest' => es ++ (if isN then Ev.setN v else Ev.setM v) :: flatten rest'
+    match argKind a with
+    | .operand => .operand a :: flatten rest
+    | .stop => rest.map .operand                     -- AS_STOP
+    | .long name => longEv name :: flatten rest
+    | .short cs =>
+      match cluster cs with
+      | (es, none) => es ++ flatten rest
+      | (es, some isN) =>
+        match rest with
+        | [] => es ++ [.bad]                          -- "requires an argument"
+        | v :: rest' => es ++ (if isN then Ev.setN v else Ev.setM v) :: flatten rest'
 
 def consOp (t : Tok) : OutcomeL → OutcomeL
   | .config c ops => .config c (t :: ops)
@@ -235,12 +247,11 @@ def interp (c : Config) : List Ev → OutcomeL
     | none => .fatal
     | some v => interp { c with maxMem := some v } es
   | .act a ch :: es =>
-    match a with
-    | .usage => .help
-    | .version => .version
-    | _ => match applyAct a ch c with
-           | none => .fatal
-           | some c' => interp c' es
+    if a = .usage then .help
+    else if a = .version then .version
+    else match applyAct a ch c with
+         | none => .fatal
+         | some c' => interp c' es
 
 /-- "Effectuate option defaults": the invocation name. -/
 def initial (pname : String) : Config :=
